@@ -207,6 +207,12 @@ pub fn run(o: &DetectOpts) -> serde_json::Value {
         let real = run_real(&c.bytes, &c.settings);
         let real_lines = outcome_lines(&real);
         let model_lines = drv.detect(&c.bytes, &c.settings);
+        if Driver::died(&model_lines) {
+            // keep the contract log, restart the model process
+            let cv = std::mem::take(&mut drv.contract_violations);
+            drv = Driver::start(&o.driver);
+            drv.contract_violations = cv;
+        }
         for t in branch_tags(&real_lines, &c.bytes, &c.settings) {
             *branches.entry(t).or_insert(0) += 1;
         }
